@@ -306,8 +306,10 @@ def main():
     cov['exhaustive'] = False
     ev = dict(property_id=prop, tier=tier, seed=seed, level='proof', coverage=cov,
               assumptions=mod.ASSUMES, wall_s=round(wall, 2), violations=len(violations))
-    os.makedirs(os.path.join(VERIF, 'evidence'), exist_ok=True)
-    with open(os.path.join(VERIF, 'evidence', '%s.json' % prop), 'w') as f:
+    # runs against seeded changes (tools/seeded.py) write their evidence elsewhere: /verif/evidence only holds runs on /repo as it is
+    evdir = os.environ.get('VERIF_EVIDENCE_DIR') or os.path.join(VERIF, 'evidence')
+    os.makedirs(evdir, exist_ok=True)
+    with open(os.path.join(evdir, '%s.json' % prop), 'w') as f:
         json.dump(ev, f, indent=1, default=str)
     for l in known_lines:
         print(l)
